@@ -16,6 +16,9 @@
 use poulpy_core::api::*;
 use poulpy_core::layouts::*;
 use poulpy_bin_fhe::blind_rotation::{BlindRotationKey, BlindRotationKeyEncryptSk, BlindRotationKeyLayout, BlindRotationKeyPrepared, CGGI, LookUpTableLayout, LookupTable};
+use poulpy_bin_fhe::bdd_arithmetic::tests::test_suite::TestContext;
+use poulpy_bin_fhe::bdd_arithmetic::{Cmux, FheUint, FheUintPrepare, FheUintPrepared, GetGGSWBit};
+use poulpy_bin_fhe::circuit_bootstrapping::{CircuitBootstrappingEncryptionInfos, CircuitBootstrappingExecute, CircuitBootstrappingKey, CircuitBootstrappingKeyLayout, CircuitBootstrappingKeyPrepared};
 use poulpy_ckks::{CKKSMeta, layouts::{CKKSCiphertext, CKKSPlaintextVecZnx}, leveled::api::*};
 use poulpy_core::EncryptionLayout;
 use poulpy_hal::api::*;
@@ -205,18 +208,20 @@ macro_rules! body {
                     let (parts, _) = s.split_mut(th, len);
                     parts.iter().map(|x| x.data.len() as u8).collect() }) }
             // ------------------------------------------------------------------ core
-            101 | 102 => { // lwe_encrypt_sk / lwe_decrypt [be n_module n_lwe base2k k]
+            101 | 102 => { // lwe_encrypt_sk / lwe_decrypt [be n_module n_lwe base2k k (k_pt)]: k_pt = precision of the plaintext
+                           // container (default k): a plaintext with fewer limbs than the ciphertext takes the other code paths
                 let (nl, b2k, k) = (p[2] as u32, p[3] as u32, p[4] as u32);
+                let kpt = if p.len() > 5 { p[5] as u32 } else { k };
                 let infos = EncryptionLayout::new_from_default_sigma(LWELayout { n: Degree(nl), k: TorusPrecision(k), base2k: Base2K(b2k) }).unwrap();
                 let mut sk = LWESecret::alloc(Degree(nl)); sk.fill_ternary_prob(0.5, &mut src(20));
-                let mut pt = LWEPlaintext::alloc_from_infos(&infos); pt.encode_i64(3, TorusPrecision(b2k.min(k).min(4)));
+                let mut pt = LWEPlaintext::alloc(Base2K(b2k), TorusPrecision(kpt)); pt.encode_i64(3, TorusPrecision(b2k.min(kpt).min(4)));
                 let mut ct = LWE::alloc_from_infos(&infos);
                 if $op == 101 {
                     $go(module.lwe_encrypt_sk_tmp_bytes(&infos), &mut |s: &mut Scratch<$T>| {
                         module.lwe_encrypt_sk(&mut ct, &pt, &sk, &infos, &mut src(21), &mut src(22), s); ct.data().data.clone() })
                 } else {
                     ct.fill_uniform(b2k as usize, &mut src(23));
-                    let mut out = LWEPlaintext::alloc_from_infos(&infos);
+                    let mut out = LWEPlaintext::alloc(Base2K(b2k), TorusPrecision(kpt));
                     $go(module.lwe_decrypt_tmp_bytes(&infos), &mut |s: &mut Scratch<$T>| {
                         module.lwe_decrypt(&ct, &mut out, &sk, s); out.data().data.clone() })
                 } }
@@ -225,7 +230,9 @@ macro_rules! body {
                 let infos = EncryptionLayout::new_from_default_sigma(li).unwrap();
                 let mut sk = GLWESecret::alloc_from_infos(&li); sk.fill_ternary_prob(0.5, &mut src(30));
                 let mut skp = module.glwe_secret_prepared_alloc(li.rank); module.glwe_secret_prepare(&mut skp, &sk);
-                let mut pt = GLWEPlaintext::alloc_from_infos(&li); module.vec_znx_fill_uniform(u(p[2]), &mut pt.data, 0, &mut src(31));
+                // optional p[8]: precision of the plaintext container (default: the ciphertext's)
+                let lpt = GLWELayout { n: li.n, base2k: li.base2k, k: TorusPrecision(if p.len() > 8 { p[8] as u32 } else { li.k.0 }), rank: li.rank };
+                let mut pt = GLWEPlaintext::alloc_from_infos(&lpt); module.vec_znx_fill_uniform(u(p[2]), &mut pt.data, 0, &mut src(31));
                 let mut ct = GLWE::alloc_from_infos(&li);
                 match $op {
                     103 => $go(module.glwe_encrypt_sk_tmp_bytes(&li), &mut |s: &mut Scratch<$T>| {
@@ -238,7 +245,7 @@ macro_rules! body {
                             module.glwe_encrypt_pk(&mut ct, &pt, &pkp, &infos, &mut src(36), &mut src(37), s); ct.data().data.clone() }) }
                     _ => {
                         ct.fill_uniform(u(p[2]), &mut src(38));
-                        let mut out = GLWEPlaintext::alloc_from_infos(&li);
+                        let mut out = GLWEPlaintext::alloc_from_infos(&lpt);
                         $go(module.glwe_decrypt_tmp_bytes(&li), &mut |s: &mut Scratch<$T>| {
                             module.glwe_decrypt(&ct, &mut out, &skp, s); out.data.data.clone() }) }
                 } }
@@ -493,20 +500,23 @@ macro_rules! body {
                     _ => $go(module.lwe_from_glwe_tmp_bytes(&lres, &lg, &lk), &mut |s: &mut Scratch<$T>| {
                         let mut r = LWE::alloc_from_infos(&lres); module.lwe_from_glwe(&mut r, &g, 0, &kp, s); r.data().data.clone() }),
                 } }
-            147 => { // glwe_pack [be n | res(6) key(6) count]
-                let (lr, lk) = (glwe_l(n, &p[2..8]), gglwe_l(n, &p[8..14])); let cnt = u(p[14]);
+            147 => { // glwe_pack [be n | res(6) inputs(6) key(6)]: four inputs at slots {0, 1, n/2+1, n/2+2} so that all three cases of
+                     // pack_internal (both halves, low only, high only) occur; log_gap_out = 0
+                let (lr, la, lk) = (glwe_l(n, &p[2..8]), glwe_l(n, &p[8..14]), gglwe_l(n, &p[14..20]));
                 let mut keys: HashMap<i64, GLWEAutomorphismKeyPrepared<DeviceBuf<$T>, $T>> = HashMap::new();
                 for (j, g) in module.glwe_pack_galois_elements().into_iter().enumerate() {
-                    let mut key = GGLWE::alloc_from_infos(&lk); key.fill_uniform(u(p[8]), &mut src(130 + j as u64));
+                    let mut key = GGLWE::alloc_from_infos(&lk); key.fill_uniform(u(p[14]), &mut src(130 + j as u64));
                     let mut kp = module.glwe_automorphism_key_prepared_alloc_from_infos(&lk);
                     let mut sb = big(module.gglwe_prepare_tmp_bytes(&lk)); module.gglwe_prepare(&mut kp, &key, sb.borrow());
                     kp.set_p(g); keys.insert(g, kp);
                 }
-                let cts0: Vec<GLWE<Vec<u8>>> = (0..cnt).map(|i| { let mut c = GLWE::alloc_from_infos(&lr); c.fill_uniform(u(p[2]), &mut src(150 + i as u64)); c }).collect();
-                $go(module.glwe_pack_tmp_bytes(&lr, &lk), &mut |s: &mut Scratch<$T>| {
+                let slots = [0usize, 1, n / 2 + 1, n / 2 + 2];
+                let cts0: Vec<GLWE<Vec<u8>>> = (0..4).map(|i| { let mut c = GLWE::alloc_from_infos(&la); c.fill_uniform(u(p[8]), &mut src(150 + i as u64)); c }).collect();
+                // sized through the public query, for the layout of the result and for the layout of the inputs
+                $go(module.glwe_pack_tmp_bytes(&lr, &lk).max(module.glwe_pack_tmp_bytes(&la, &lk)), &mut |s: &mut Scratch<$T>| {
                     let mut cts = cts0.clone(); let mut r = GLWE::alloc_from_infos(&lr);
                     let mut m: HashMap<usize, &mut GLWE<Vec<u8>>> = HashMap::new();
-                    for (i, c) in cts.iter_mut().enumerate() { m.insert(i, c); }
+                    for (i, c) in cts.iter_mut().enumerate() { m.insert(slots[i], c); }
                     module.glwe_pack(&mut r, m, 0, &keys, s); r.data().data.clone() }) }
             148 | 149 | 150 | 151 | 152 => { // tensor_relinearize / tensor_square_apply / mul_plain_assign / mul_const_assign / tensor_apply_add_assign
                                                // [be n | res(6) a(6) key(6) cnv_offset]
@@ -567,9 +577,115 @@ macro_rules! body {
                         $go(BlindRotationKeyPrepared::<DeviceBuf<$T>, CGGI, $T>::execute_tmp_bytes(&module, block, ext, &gl, &brl), &mut |s: &mut Scratch<$T>| {
                             let mut res = GLWE::alloc_from_infos(&gl); kp.execute(&module, &mut res, &lwe, &lut, s); res.data().data.clone() }) }
                 } }
+            190..=196 => { // compressed encryptions [be n | layout(6)]
+                let lk = gglwe_l(n, &p[2..8]);
+                let noise = NoiseInfos::new(u(p[3]), poulpy_core::DEFAULT_SIGMA_XE, 6.0 * poulpy_core::DEFAULT_SIGMA_XE).unwrap();
+                let mut sk_out = GLWESecret::alloc(Degree(n as u32), lk.rank_out); sk_out.fill_ternary_prob(0.5, &mut src(230));
+                let mut sk_in = GLWESecret::alloc(Degree(n as u32), lk.rank_in); sk_in.fill_ternary_prob(0.5, &mut src(231));
+                let mut skp = module.glwe_secret_prepared_alloc(lk.rank_out); module.glwe_secret_prepare(&mut skp, &sk_out);
+                let seed = [7u8; 32];
+                match $op {
+                    190 => { let lg = glwe_l(n, &p[2..8]);
+                        let lpt = GLWELayout { n: lg.n, base2k: lg.base2k, k: TorusPrecision(if p.len() > 8 { p[8] as u32 } else { lg.k.0 }), rank: lg.rank };
+                        let mut pt = GLWEPlaintext::alloc_from_infos(&lpt); module.vec_znx_fill_uniform(u(p[2]), &mut pt.data, 0, &mut src(232));
+                        let mut res = GLWECompressed::alloc_from_infos(&lg);
+                        $go(module.glwe_compressed_encrypt_sk_tmp_bytes(&lg), &mut |s: &mut Scratch<$T>| {
+                            module.glwe_compressed_encrypt_sk(&mut res, &pt, &skp, seed, &noise, &mut src(233), s); ser_bytes(&res) }) }
+                    191 => { let mut pt = ScalarZnx::alloc(n, lk.rank_in.as_usize()); pt.fill_ternary_prob(0, 0.5, &mut src(232));
+                        let mut res = GGLWECompressed::alloc_from_infos(&lk);
+                        $go(module.gglwe_compressed_encrypt_sk_tmp_bytes(&lk), &mut |s: &mut Scratch<$T>| {
+                            module.gglwe_compressed_encrypt_sk(&mut res, &pt, &skp, seed, &noise, &mut src(233), s); ser_bytes(&res) }) }
+                    192 => { let lg = ggsw_l(n, &p[2..8]); let mut pt = ScalarZnx::alloc(n, 1); pt.fill_ternary_prob(0, 0.5, &mut src(232));
+                        let mut res = GGSWCompressed::alloc_from_infos(&lg);
+                        $go(module.ggsw_compressed_encrypt_sk_tmp_bytes(&lg), &mut |s: &mut Scratch<$T>| {
+                            module.ggsw_compressed_encrypt_sk(&mut res, &pt, &skp, seed, &noise, &mut src(233), s); ser_bytes(&res) }) }
+                    193 => { let mut res = GLWESwitchingKeyCompressed::alloc_from_infos(&lk);
+                        $go(module.glwe_switching_key_compressed_encrypt_sk_tmp_bytes(&lk), &mut |s: &mut Scratch<$T>| {
+                            module.glwe_switching_key_compressed_encrypt_sk(&mut res, &sk_in, &sk_out, seed, &noise, &mut src(233), s); ser_bytes(&res) }) }
+                    194 => { let mut res = GLWEAutomorphismKeyCompressed::alloc_from_infos(&lk); let g = module.galois_element(1);
+                        $go(module.glwe_automorphism_key_compressed_encrypt_sk_tmp_bytes(&lk), &mut |s: &mut Scratch<$T>| {
+                            module.glwe_automorphism_key_compressed_encrypt_sk(&mut res, g, &sk_out, seed, &noise, &mut src(233), s); ser_bytes(&res) }) }
+                    195 => { let mut res = GLWETensorKeyCompressed::alloc_from_infos(&lk);
+                        $go(module.glwe_tensor_key_compressed_encrypt_sk_tmp_bytes(&lk), &mut |s: &mut Scratch<$T>| {
+                            module.glwe_tensor_key_compressed_encrypt_sk(&mut res, &sk_out, seed, &noise, &mut src(233), s); ser_bytes(&res) }) }
+                    _ => { let mut res = GGLWEToGGSWKeyCompressed::alloc_from_infos(&lk);
+                        $go(<M as GGLWEToGGSWKeyCompressedEncryptSk<$T>>::gglwe_to_ggsw_key_encrypt_sk_tmp_bytes(&module, &lk), &mut |s: &mut Scratch<$T>| {
+                            <M as GGLWEToGGSWKeyCompressedEncryptSk<$T>>::gglwe_to_ggsw_key_encrypt_sk(&module, &mut res, &sk_out, seed, &noise, &mut src(233), s); ser_bytes(&res) }) }
+                } }
+            183 => { // circuit bootstrapping (oracle only) [be n | res_base2k dnum rank brk_base2k expo log_domain]
+                let (rb, dnum, rank, bb, expo) = (u(p[2]), u(p[3]), u(p[4]), u(p[5]), p[6] != 0);
+                let (n_lwe, block, ld, lgo) = (12usize, 3usize, u(p[7]), 1usize);
+                let k_res = (dnum + 1) * rb;
+                let rows = |k: usize, b: usize| k.div_ceil(b);
+                let (tb, ab) = (12usize, 11usize);
+                let cbt_infos = CircuitBootstrappingKeyLayout {
+                    brk_layout: BlindRotationKeyLayout { n_glwe: Degree(n as u32), n_lwe: Degree(n_lwe as u32), base2k: Base2K(bb as u32),
+                        k: TorusPrecision(((rows(k_res, bb) + 1) * bb) as u32), dnum: Dnum(rows(k_res, bb) as u32), rank: Rank(rank as u32) },
+                    atk_layout: GLWEAutomorphismKeyLayout { n: Degree(n as u32), base2k: Base2K(ab as u32),
+                        k: TorusPrecision(((rows(k_res, ab) + 1) * ab) as u32), dnum: Dnum(rows(k_res, ab) as u32), rank: Rank(rank as u32), dsize: Dsize(1) },
+                    tsk_layout: GGLWEToGGSWKeyLayout { n: Degree(n as u32), base2k: Base2K(tb as u32),
+                        k: TorusPrecision(((rows(k_res, tb) + 1) * tb) as u32), dnum: Dnum(rows(k_res, tb) as u32), dsize: Dsize(1), rank: Rank(rank as u32) },
+                };
+                let l = GGSWLayout { n: Degree(n as u32), base2k: Base2K(rb as u32), k: TorusPrecision(k_res as u32), dnum: Dnum(dnum as u32), dsize: Dsize(1), rank: Rank(rank as u32) };
+                let mut sbig = big(1 << 24);
+                let mut sk_lwe = LWESecret::alloc(Degree(n_lwe as u32)); sk_lwe.fill_binary_block(block, &mut src(200));
+                let mut sk_glwe = GLWESecret::alloc(Degree(n as u32), Rank(rank as u32)); sk_glwe.fill_ternary_prob(0.5, &mut src(201));
+                let li = LWELayout { n: Degree(n_lwe as u32), k: TorusPrecision(22), base2k: Base2K(14) };
+                let mut lwe = LWE::alloc_from_infos(&li); lwe.fill_uniform(14, &mut src(202));
+                let mut key: CircuitBootstrappingKey<Vec<u8>, CGGI> = CircuitBootstrappingKey::alloc_from_infos(&cbt_infos);
+                let enc = CircuitBootstrappingEncryptionInfos::from_default_sigma(&cbt_infos).unwrap();
+                key.encrypt_sk(&module, &sk_lwe, &sk_glwe, &enc, &mut src(203), &mut src(204), sbig.borrow());
+                let mut kp: CircuitBootstrappingKeyPrepared<DeviceBuf<$T>, CGGI, $T> = CircuitBootstrappingKeyPrepared::alloc_from_infos(&module, &cbt_infos);
+                kp.prepare(&module, &key, sbig.borrow());
+                let dump = |r: &GGSW<Vec<u8>>| -> Vec<u8> { let mut o = Vec::new(); for i in 0..dnum { for j in 0..rank + 1 { o.extend_from_slice(r.at(i, j).data().data); } } o };
+                // each mode has its own size query since 7e35613
+                $go(if expo { module.circuit_bootstrapping_execute_to_exponent_tmp_bytes(block, 1, ld, &l, &cbt_infos) } else { module.circuit_bootstrapping_execute_tmp_bytes(block, 1, &l, &cbt_infos) }, &mut |s: &mut Scratch<$T>| {
+                    let mut ggsw = GGSW::alloc_from_infos(&l);
+                    if expo { kp.execute_to_exponent(&module, lgo, &mut ggsw, &lwe, ld, 1, s); } else { kp.execute_to_constant(&module, &mut ggsw, &lwe, ld, 1, s); }
+                    dump(&ggsw) }) }
+            184 => { // cmux family [be n | res(6) a(6) ggsw(6) variant]
+                let (lr, la, lg) = (glwe_l(n, &p[2..8]), glwe_l(n, &p[8..14]), ggsw_l(n, &p[14..20]));
+                let mut g = GGSW::alloc_from_infos(&lg); g.fill_uniform(u(p[14]), &mut src(210));
+                let mut gp = module.ggsw_prepared_alloc_from_infos(&lg);
+                let mut sb = big(module.ggsw_prepare_tmp_bytes(&lg)); module.ggsw_prepare(&mut gp, &g, sb.borrow());
+                let mut t = GLWE::alloc_from_infos(&la); t.fill_uniform(u(p[8]), &mut src(211));
+                let mut f = GLWE::alloc_from_infos(&la); f.fill_uniform(u(p[8]), &mut src(212));
+                let variant = p[20];   // 0 = cmux(res, t, f, s), 1 = cmux_assign(res, a, s), 2 = cmux_assign_neg(res, a, s)
+                let mut r0 = GLWE::alloc_from_infos(&lr); r0.fill_uniform(u(p[2]), &mut src(213));
+                $go(module.cmux_tmp_bytes(&lr, &la, &lg), &mut |s: &mut Scratch<$T>| {
+                    let mut r = r0.clone();
+                    match variant { 0 => module.cmux(&mut r, &t, &f, &gp, s), 1 => module.cmux_assign(&mut r, &t, &gp, s), _ => module.cmux_assign_neg(&mut r, &t, &gp, s) }
+                    r.data().data.clone() }) }
             other => panic!("c12: unknown op {}", other),
         }
     }};
+}
+
+/// fhe_uint preparation at the crate's test parameter set (oracle only) [be n=256 | threads bit_start bit_count]: 185 = through
+/// prepare_custom (one thread), 186 = prepare_custom_multi_thread on a scratch of EXACTLY threads * fhe_uint_prepare_tmp_bytes
+/// bytes (the split into per-thread regions happens inside)
+mod fhe_uint_ref {
+    use super::*;
+    type BE = poulpy_cpu_ref::FFT64Ref;
+    static CTX: std::sync::LazyLock<TestContext<CGGI, BE>> = std::sync::LazyLock::new(TestContext::<CGGI, BE>::new);
+    pub fn run(op: i64, p: &[i128]) -> Vec<i128> {
+        let ctx = &*CTX;
+        let (threads, start, count) = (u(p[2]), u(p[3]), u(p[4]));
+        let mut sbig: ScratchOwned<BE> = ScratchOwned::alloc(1 << 24);
+        let mut c: FheUint<Vec<u8>, u32> = FheUint::alloc_from_infos(&ctx.glwe_infos());
+        let e = EncryptionLayout::new_from_default_sigma(ctx.glwe_infos()).unwrap();
+        c.encrypt_sk(&ctx.module, 0xdead_beefu32, &ctx.sk_glwe, &e, &mut src(220), &mut src(221), sbig.borrow());
+        let p0: FheUintPrepared<DeviceBuf<BE>, u32, BE> = FheUintPrepared::alloc_from_infos(&ctx.module, &ctx.ggsw_infos());
+        let per = ctx.module.fhe_uint_prepare_tmp_bytes(7, 1, &p0, &c, &ctx.bdd_key);
+        let need = if op == 185 { per } else { threads * per };
+        exact_twice::<BE>(need, &mut |s: &mut Scratch<BE>| {
+            let mut pp: FheUintPrepared<DeviceBuf<BE>, u32, BE> = FheUintPrepared::alloc_from_infos(&ctx.module, &ctx.ggsw_infos());
+            if op == 185 { pp.prepare_custom(&ctx.module, &c, start, start + count, &ctx.bdd_key, s); }
+            else { pp.prepare_custom_multi_thread(threads, &ctx.module, &c, start, count, &ctx.bdd_key, s); }
+            let mut o = Vec::new();
+            for i in start..start + count { let b = pp.get_bit(i); o.extend_from_slice(b.data().data()); }
+            o })
+    }
 }
 
 /// CKKS leveled operations (oracle only) [be n | base2k k_ct log_delta]; CKKSImpl is implemented for the AVX backends only under a
@@ -635,9 +751,30 @@ macro_rules! ckks_body {
                         let mut r = CKKSCiphertext::alloc(gl.n, gl.k, gl.base2k); module.ckks_add_pt_vec_znx_into(&mut r, &a, &pt, s).unwrap(); bytes(&r) }),
                     172 => $go(module.ckks_neg_tmp_bytes(), &mut |s: &mut Scratch<$T>| {
                         let mut r = CKKSCiphertext::alloc(gl.n, gl.k, gl.base2k); module.ckks_neg_into(&mut r, &a, s).unwrap(); bytes(&r) }),
-                    _ => $go(module.ckks_align_tmp_bytes(), &mut |s: &mut Scratch<$T>| {
+                    173 => $go(module.ckks_align_tmp_bytes(), &mut |s: &mut Scratch<$T>| {
                         let (mut x, mut y) = (mk(176, 177), mk(178, 179)); let mut sc = big(module.ckks_rescale_tmp_bytes()); module.ckks_rescale_assign(&mut y, 5, sc.borrow()).unwrap();
                         module.ckks_align_assign(&mut x, &mut y, s).unwrap(); let mut o = bytes(&x); o.extend(bytes(&y)); o }),
+                    // ---- composites (delegates to the operations above on ONE scratch)
+                    174 => $go(module.ckks_sub_tmp_bytes(), &mut |s: &mut Scratch<$T>| {
+                        let mut r = CKKSCiphertext::alloc(gl.n, gl.k, gl.base2k); module.ckks_sub_into(&mut r, &a, &b, s).unwrap(); bytes(&r) }),
+                    175 => $go(module.ckks_mul_add_ct_tmp_bytes(&gl, &kl), &mut |s: &mut Scratch<$T>| {
+                        let mut r = mk(182, 183); module.ckks_mul_add_ct_into(&mut r, &a, &b, &tkp, s).unwrap(); bytes(&r) }),
+                    176 => $go(module.ckks_mul_sub_ct_tmp_bytes(&gl, &kl), &mut |s: &mut Scratch<$T>| {
+                        let mut r = mk(182, 183); module.ckks_mul_sub_ct_into(&mut r, &a, &b, &tkp, s).unwrap(); bytes(&r) }),
+                    177 => { let c = mk(184, 185);
+                        $go(module.ckks_dot_product_ct_tmp_bytes(2, &gl, &kl), &mut |s: &mut Scratch<$T>| {
+                            let mut r = CKKSCiphertext::alloc(gl.n, gl.k, gl.base2k);
+                            module.ckks_dot_product_ct(&mut r, &[&a, &b], &[&b, &c], &tkp, s).unwrap(); bytes(&r) }) }
+                    178 => { let c = mk(184, 185);
+                        // three factors need two multiplicative levels of budget
+                        let ins: Vec<&CKKSCiphertext<Vec<u8>>> = if kct - ld - b2k >= 2 * ld + 10 { vec![&a, &b, &c] } else { vec![&a, &b] };
+                        $go(module.ckks_mul_many_tmp_bytes(ins.len(), &gl, &kl), &mut |s: &mut Scratch<$T>| {
+                            let mut r = CKKSCiphertext::alloc(gl.n, gl.k, gl.base2k);
+                            module.ckks_mul_many(&mut r, &ins, &tkp, s).unwrap(); bytes(&r) }) }
+                    _ => { let c = mk(184, 185);
+                        $go(module.ckks_add_many_tmp_bytes(), &mut |s: &mut Scratch<$T>| {
+                            let mut r = CKKSCiphertext::alloc(gl.n, gl.k, gl.base2k);
+                            module.ckks_add_many(&mut r, &[&a, &b, &c], s).unwrap(); bytes(&r) }) }
                 }
     }};
 }
@@ -665,7 +802,11 @@ fn run(r: &Rec) -> Vec<Vec<i128>> {
     let be = r.ps[0] as i64;
     let (mode, op) = if r.code < 12500 { (0, r.code - 12000) } else if r.code < 12700 { (1, r.code - 12500) } else { (2, r.code - 12700) };
     let p: &[i128] = &r.ps;
-    if (160..=173).contains(&op) {
+    if op == 185 || op == 186 {
+        assert!(be == 1 && mode == 2, "c12: fhe_uint preparation runs on FFT64Ref, independence phase only");
+        return vec![fhe_uint_ref::run(op, p)];
+    }
+    if (160..=179).contains(&op) {
         use poulpy_cpu_ref::{FFT64Ref, NTT120Ref};
         let v: Vec<i128> = match be {
             1 => ckks_body!(FFT64Ref, op, p, exact_twice::<FFT64Ref>),
@@ -788,49 +929,76 @@ pub fn generate(tier: &str, seed: u64) -> Vec<Rec> {
                 for &(kb, kk, rout, rin, dnum, dsize) in k3 {
                     let key = inf(kb, kk, rout, rin, dnum, dsize);
                     let mk = |op: i64| -> Vec<i128> { let mut v = vec![be, n]; v.extend(&key); v.push(if op % 2 == 0 { 7 } else { n - 1 }); v };
-                    g.push(130, mk(130), true, false);
-                    g.push(132, mk(132), true, false);
+                    g.push(130, mk(130), true, true);
+                    g.push(132, mk(132), true, true);
                     if rin == rout {
-                        for &op in &[131i64, 133, 134, 135] { g.push(op, mk(op), true, false); }
+                        for &op in &[131i64, 133, 134, 135] { g.push(op, mk(op), true, true); }
                     }
-                    if dsize == 1 && rout == 1 { g.push(137, mk(137), true, false); }
-                    if dsize == 1 && rin == 1 { g.push(138, mk(138), true, false); }
-                    if dsize == 1 && rin == 1 && rout == 1 { g.push(136, mk(136), true, false); }
+                    { let mut v = vec![be, n]; v.extend(&key);
+                      g.push(191, v.clone(), true, true); g.push(193, v.clone(), true, true);
+                      if rin == rout { for &op in &[190i64, 192, 194, 195, 196] { g.push(op, v.clone(), true, true); }
+                                       let mut w = v.clone(); w.push(kb); g.push(190, w, true, true);
+                                       let mut w = v.clone(); w.push(kk + 2 * kb); g.push(190, w, true, true); } }
+                    if dsize == 1 && rout == 1 { g.push(137, mk(137), true, true); }
+                    if dsize == 1 && rin == 1 { g.push(138, mk(138), true, true); }
+                    if dsize == 1 && rin == 1 && rout == 1 { g.push(136, mk(136), true, true); }
                     if rin == rout {
                         // GGSW key-switch / automorphism / expansion: res, a GGSWs of 2 rows in the key's radix resp. a different one
                         for &(ab, ak) in &[(kb, 2 * kb), (kb - 2, 3 * (kb - 2))] {
                             let mut v = vec![be, n];
                             v.extend(&inf(ab, ak + ab, rout, rout, 2, 1)); v.extend(&inf(ab, ak + ab, rout, rout, 2, 1)); v.extend(&key);
                             v.extend(&inf(kb, kk, rout, rout, dnum, dsize));
-                            g.push(140, v.clone(), true, false);
-                            g.push(141, v.clone(), true, false);
-                            g.push(146, v, true, false);
+                            g.push(140, v.clone(), true, true);
+                            g.push(141, v.clone(), true, true);
+                            g.push(146, v, true, true);
+                            // the input GGSW more precise than the result
+                            let mut v2 = vec![be, n];
+                            v2.extend(&inf(ab, ak, rout, rout, 2, 1)); v2.extend(&inf(ab, ak + 2 * ab, rout, rout, 2, 1)); v2.extend(&key);
+                            v2.extend(&inf(kb, kk, rout, rout, dnum, dsize));
+                            g.push(140, v2.clone(), true, true);
+                            g.push(141, v2, true, true);
+                            // .. and the result more precise than the input
+                            let mut v3 = vec![be, n];
+                            v3.extend(&inf(ab, ak + 2 * ab, rout, rout, 2, 1)); v3.extend(&inf(ab, ak, rout, rout, 2, 1)); v3.extend(&key);
+                            v3.extend(&inf(kb, kk, rout, rout, dnum, dsize));
+                            g.push(140, v3.clone(), true, true);
+                            g.push(141, v3, true, true);
                             let mut w = vec![be, n];
                             w.extend(&inf(ab, ak + ab, rout, rout, 2, 1)); w.extend(&inf(ab, ak + ab, rout, rout, 2, 1)); w.extend(&key);
                             g.push(142, w, true, false);
                         }
-                        let mut v = vec![be, n]; v.extend(&inf(kb, kk - kb, rout, rout, 0, 1)); v.extend(&key); v.push(3);
-                        g.push(147, v, true, false);
+                        // glwe_pack: inputs of the result's layout, inputs with more limbs than the result, inputs of another radix
+                        for &(ib, ik) in &[(kb, kk - kb), (kb, kk), (kb - 2, kk - kb), (kb - 1, (kk - kb) / kb * (kb - 1)), (kb, kb)] {
+                            let mut v = vec![be, n]; v.extend(&inf(kb, kk - kb, rout, rout, 0, 1)); v.extend(&inf(ib, ik, rout, rout, 0, 1)); v.extend(&key);
+                            g.push(147, v, true, true);
+                        }
                         for &(ab, ak, off) in &[(kb, 2 * kb, 0i128), (kb - 2, 3 * (kb - 2), kb + 3)] {
                             let mut v = vec![be, n];
                             v.extend(&inf(kb, kk - kb, rout, rout, 0, 1)); v.extend(&inf(ab, ak, rout, rout, 0, 1)); v.extend(&key); v.push(off);
-                            for &op in &[148i64, 149, 150, 151, 152] { g.push(op, v.clone(), true, false); }
+                            for &op in &[148i64, 149, 150, 151, 152] { g.push(op, v.clone(), true, op <= 149); }
                         }
                     }
                     if dsize == 1 {
                         // LWE <-> GLWE conversions and LWE key-switch: [lwe_res(b2k k n_lwe) lwe_a(b2k k n_lwe) glwe(6) key(6)]
                         let lw = |b: i128, k: i128, nl: i128| vec![b, k, nl];
                         if rin == 1 && rout == 1 {
-                            let mut v = vec![be, n]; v.extend(lw(kb - 1, 2 * (kb - 1), 7)); v.extend(lw(kb, 2 * kb + 1, n - 1)); v.extend(&inf(kb, 2 * kb, 1, 1, 0, 1)); v.extend(&key);
-                            g.push(143, v, true, false);
+                            for &(rb, rk, ab, ak) in &[(kb - 1, 2 * (kb - 1), kb, 2 * kb + 1), (kb, 3 * kb, kb, kb), (kb, kb, kb - 3, 4 * (kb - 3))] {
+                                let mut v = vec![be, n]; v.extend(lw(rb, rk, 7)); v.extend(lw(ab, ak, n - 1)); v.extend(&inf(kb, 2 * kb, 1, 1, 0, 1)); v.extend(&key);
+                                g.push(143, v, true, true);
+                            }
                         }
                         if rin == 1 {
-                            let mut v = vec![be, n]; v.extend(lw(kb, 2 * kb, 7)); v.extend(lw(kb - 1, 2 * kb, 7)); v.extend(&inf(kb - 2, 3 * kb, rout, rout, 0, 1)); v.extend(&key);
-                            g.push(144, v, true, false);
+                            // (glwe b2k, glwe k, lwe b2k, lwe k): same radix; LWE more precise than the GLWE; cross radix
+                            for &(gb, gk, lb, lk_) in &[(kb, 2 * kb, kb, 2 * kb), (kb, kb, kb, 3 * kb), (kb - 2, 3 * kb, kb - 1, 2 * kb), (kb, 2 * kb, kb - 3, 4 * kb)] {
+                                let mut v = vec![be, n]; v.extend(lw(kb, 2 * kb, 7)); v.extend(lw(lb, lk_, 7)); v.extend(&inf(gb, gk, rout, rout, 0, 1)); v.extend(&key);
+                                g.push(144, v, true, true);
+                            }
                         }
                         if rout == 1 {
-                            let mut v = vec![be, n]; v.extend(lw(kb - 1, 2 * kb, 7)); v.extend(lw(kb, 2 * kb, 7)); v.extend(&inf(kb - 2, 3 * kb, rin, rin, 0, 1)); v.extend(&key);
-                            g.push(145, v, true, false);
+                            for &(lb, lk_, gb, gk) in &[(kb - 1, 2 * kb, kb - 2, 3 * kb), (kb, kb, kb, 3 * kb), (kb, 3 * kb, kb, kb)] {
+                                let mut v = vec![be, n]; v.extend(lw(lb, lk_, 7)); v.extend(lw(kb, 2 * kb, 7)); v.extend(&inf(gb, gk, rin, rin, 0, 1)); v.extend(&key);
+                                g.push(145, v, true, true);
+                            }
                         }
                     }
                 }
@@ -841,9 +1009,28 @@ pub fn generate(tier: &str, seed: u64) -> Vec<Rec> {
                     for op in 180..=182i64 { g.push(op, vec![be, n, nl, block, b2k, kbrk, rows, kres, rank, ext], true, false); }
                 }
             }
+            if n == 16 && (refbe || be == 2) {
+                // circuit bootstrapping [res_base2k dnum rank brk_base2k expo] and cmux [res(6) a(6) ggsw(6)]
+                for &(rb, dnum, rank, bb, expo, ld) in &[(7i128, 2i128, 1i128, 13i128, 0i128, 2i128), (8, 2, 2, 15, 1, 2), (6, 2, 1, 12, 0, 1), (8, 1, 1, 15, 0, 1), (6, 2, 1, 12, 1, 1)] {
+                    g.push(183, vec![be, n, rb, dnum, rank, bb, expo, ld], true, false);
+                }
+                for &(rb, rk, ab, ak, gb, gk, rank, dnum, dsize) in &[(17i128, 34i128, 17i128, 34i128, 17i128, 51i128, 1i128, 2i128, 1i128), (12, 24, 12, 36, 12, 48, 2, 2, 2), (17, 51, 17, 34, 17, 51, 1, 3, 1)] {
+                    for variant in 0..3i128 {
+                        let mut v = vec![be, n]; v.extend(&inf(rb, rk, rank, rank, 0, 1)); v.extend(&inf(ab, ak, rank, rank, 0, 1)); v.extend(&inf(gb, gk, rank, rank, dnum, dsize));
+                        v.push(variant);
+                        g.push(184, v, true, true);
+                    }
+                }
+            }
+            if n == 16 && be == 1 && g.indep {
+                // fhe_uint preparation at the crate's test parameter set (n = 256 inside): [threads bit_start bit_count]
+                for &(op, th, st, ct) in &[(185i64, 1i128, 3i128, 1i128), (186, 1, 0, 1), (186, 2, 5, 2), (186, 3, 29, 3)] {
+                    g.push(op, vec![be, 256, th, st, ct], true, false);
+                }
+            }
             if n >= 8 && n <= 16 && refbe {
                 for &(b2k, kct, ld) in &[(17i128, 85i128, 30i128), (12, 84, 20)] {
-                    for op in 160..=173i64 { g.push(op, vec![be, n, b2k, kct, ld], true, false); }
+                    for op in 160..=179i64 { g.push(op, vec![be, n, b2k, kct, ld], true, false); }
                 }
             }
             // ---- core
@@ -851,17 +1038,33 @@ pub fn generate(tier: &str, seed: u64) -> Vec<Rec> {
             for &(nl, b2k, k) in &[(1i128, 17i128, 17i128), (7, 17, 30), (n, 12, 36), (n + 1, 17, 8 * 17), (22, 10, 55)] {
                 g.push(101, vec![be, n, nl, b2k, k], dense_core, true);
                 g.push(102, vec![be, n, nl, b2k, k], dense_core, true);
+                if k > b2k {   // a plaintext container with fewer limbs than the ciphertext
+                    g.push(101, vec![be, n, nl, b2k, k, b2k], dense_core, true);
+                    g.push(102, vec![be, n, nl, b2k, k, b2k], dense_core, true);
+                }
+                // .. and with more limbs
+                g.push(101, vec![be, n, nl, b2k, k, k + 2 * b2k], dense_core, true);
+                g.push(102, vec![be, n, nl, b2k, k, k + 2 * b2k], dense_core, true);
             }
-            for &(b2k, k, rank) in &[(17i128, 17i128, 1i128), (17, 40, 1), (12, 36, 2), (10, 55, 3)] {
+            for &(b2k, k, rank) in &[(17i128, 17i128, 1i128), (17, 40, 1), (12, 36, 2), (10, 55, 3), (15, 45, 0)] {
                 let gi = inf(b2k, k, rank, rank, 0, 1);
                 for &op in &[103i64, 104, 105, 118] {
                     if !ok(op) { continue; }
                     let mut ps = vec![be, n]; ps.extend(&gi);
-                    g.push(op, ps, dense_core, true);
+                    g.push(op, ps.clone(), dense_core, true);
+                    if op != 118 {
+                        if k > b2k { let mut q = ps.clone(); q.push(b2k); g.push(op, q, dense_core, true); }   // plaintext with one limb
+                        let mut q = ps.clone(); q.push(k + 2 * b2k); g.push(op, q, dense_core, true);             // plaintext with more limbs
+                    }
                 }
                 for &op in &[113i64, 114, 115, 117] {
                     if !ok(op) { continue; }
                     let mut ps = vec![be, n]; ps.extend(&gi); ps.extend(&inf(b2k + 2, k + 5, rank, rank, 0, 1)); ps.push(1);
+                    g.push(op, ps, dense_core, true);
+                    // result longer than the operand, same radix / operand longer than the result
+                    let mut ps = vec![be, n]; ps.extend(&inf(b2k, k + 2 * b2k, rank, rank, 0, 1)); ps.extend(&gi); ps.push(b2k + 3);
+                    g.push(op, ps, dense_core, true);
+                    let mut ps = vec![be, n]; ps.extend(&gi); ps.extend(&inf(b2k, k + 2 * b2k, rank, rank, 0, 1)); ps.push(2);
                     g.push(op, ps, dense_core, true);
                 }
             }
@@ -875,6 +1078,9 @@ pub fn generate(tier: &str, seed: u64) -> Vec<Rec> {
                 (12, 60, 12, 58, 12, 72, 1, 1, 3, 2),      // a.size not a multiple of dsize
                 (17, 51, 17, 51, 17, 51, 1, 1, 1, 2),      // dsize 2, same radix everywhere
                 (17, 17, 13, 13, 17, 34, 1, 1, 1, 1),      // cross-radix one-limb rank-1 input (witness of C12_suffices_glwe_automorphism_add_refuted)
+                (17, 68, 17, 34, 17, 51, 1, 1, 2, 1),      // result LONGER than the input and than the key (its tail is only partially produced)
+                (17, 34, 17, 85, 17, 51, 2, 2, 2, 1),      // input longer than result and key
+                (12, 36, 12, 48, 12, 60, 3, 3, 2, 2),      // rank 3
             ];
             for &(rb, rk, ab, ak, kb, kk, rin, rout, dnum, dsize) in ks {
                 let mut ps = vec![be, n];
@@ -917,7 +1123,7 @@ pub fn generate(tier: &str, seed: u64) -> Vec<Rec> {
                     }
                 }
             }
-            for &(rb, rk, ab, ak, bl, off) in &[(17i128, 34i128, 17i128, 34i128, 1i128, 0i128), (17, 51, 17, 34, 2, 17), (17, 51, 15, 45, 3, 40), (12, 36, 12, 36, 2, 0)] {
+            for &(rb, rk, ab, ak, bl, off) in &[(17i128, 34i128, 17i128, 34i128, 1i128, 0i128), (17, 51, 17, 34, 2, 17), (17, 51, 15, 45, 3, 40), (12, 36, 12, 36, 2, 0), (17, 17, 17, 51, 2, 5), (17, 85, 17, 34, 1, 0)] {
                 let mut ps = vec![be, n];
                 ps.extend(&inf(rb, rk, 1, 1, 0, 1)); ps.extend(&inf(ab, ak, 1, 1, 0, 1)); ps.push(bl); ps.push(off);
                 if ok(116) { g.push(116, ps, dense_core, true); }
